@@ -298,6 +298,7 @@ type xPending struct {
 	out     *xOut
 	started chan struct{}
 	parked  bool
+	why     string
 	grace   time.Duration // how long settle yields before it looks at the goroutine dump
 }
 
@@ -344,7 +345,7 @@ func xParked(st, fr string) string {
 		return "gate"
 	case strings.HasPrefix(st, "chan receive") && strings.Contains(top, "domain.(*fileController).acquire"):
 		return "chan"
-	case (strings.Contains(st, "Mutex") || strings.HasPrefix(st, "semacquire") || strings.HasPrefix(st, "sync.")) &&
+	case (strings.HasPrefix(st, "sync.RWMutex.") || strings.HasPrefix(st, "sync.Mutex.")) &&
 		strings.Contains(top, "domain.(*fileController)."):
 		return "lock"
 	}
@@ -380,8 +381,10 @@ func (p *xPending) settle(hang time.Duration) string {
 			return "done"
 		default:
 		}
-		if k := xParked(xGoState(p.gid.Load())); k != "" {
+		gst, gfr := xGoState(p.gid.Load())
+		if k := xParked(gst, gfr); k != "" {
 			if k == confirm {
+				p.why = gst + " @ " + strings.Join(strings.Split(gfr, "\n")[1:min(8, len(strings.Split(gfr, "\n")))], " | ")
 				return k
 			}
 			confirm = k
@@ -832,7 +835,7 @@ func (r *xReplayer) step(i int, st xStep) *xMismatch {
 			r.pend = append(r.pend, p)
 		default:
 			r.leaked = append(r.leaked, p)
-			return &xMismatch{"verdict", "blocked", i, "OpenWriter returns or parks on fc.release", "parked: " + s}
+			return &xMismatch{"verdict", "blocked", i, "OpenWriter returns or parks on fc.release", "parked: " + s + " " + p.why}
 		}
 	case "write":
 		r.cnt.Writes++
@@ -1293,14 +1296,21 @@ func (r *xReplayer) verify(i int, st xStep, counterBefore int) *xMismatch {
 				Exp: "an acquire does not block while every open descriptor is idle",
 				Act: fmt.Sprintf("%s parked on fc.release; pool: %d descriptors, none in use", r.pend[0].id.t, mapCount)})
 		}
+		stuck := ""
 		for _, p := range r.pend {
 			if p.id.t == "w" && idleSmall > 0 {
-				r.cnt.Stuck++
-				r.findings = append(r.findings, xResult{R: "finding", Clause: "stuck-waiter", Step: i,
-					Exp: "a blocked OpenWriter returns once a writer handle of a file below the nominal size is released",
-					Act: "still parked on fc.release; the token went to a blocked acquireReader that cannot use it"})
+				stuck = "OpenWriter still parked on fc.release next to an idle writer handle of a small file; the token went to a blocked acquireReader that cannot use it"
 				break
 			}
+		}
+		if stuck == "" && len(st.X) > 5 && st.X[5] == 1 {
+			// the pool equals the behaviour's post-state (checked below), in which this call would return
+			stuck = fmt.Sprintf("a call of %v is still parked on fc.release although the pool now lets it return", st.Pd)
+		}
+		if stuck != "" {
+			r.cnt.Stuck++
+			r.findings = append(r.findings, xResult{R: "finding", Clause: "stuck-waiter", Step: i,
+				Exp: "a blocked acquire returns once the pool lets the same call, issued afresh, return", Act: stuck})
 		}
 		if idleSmall > 0 {
 			r.cnt.Starved++
